@@ -57,7 +57,7 @@ def run(ctx):
     ctx.rule("C28.3", "copy is synced before the original is replaced; rename order target->backup then tmp->target")
 
     dups = sorted(k for k in F.consts if k.startswith(V))
-    ctx.floor("C28.1", "constants declared in vacuum.rs", len(dups), 4)
+    ctx.floor("C28.1", "constants declared in vacuum.rs", len(dups), 3)
     for k in dups:
         short = k.split("::")[-1]
         owner = OWNERS.get(short)
@@ -73,26 +73,53 @@ def run(ctx):
                    "rejects every compacted database (`invalid csr meta magic`)" if short == "META_MAGIC" else "mis-parses the structure"),
                    "nervusdb-storage/src/vacuum.rs", sample={"vacuum_const": k, "value": a, "owner": owner, "owner_value": b})
     vb = ctx.body(V + "mark_csr_segment_pages")
-    db = ctx.body("nervusdb_storage::csr::decode_segment")
-    vr, dr = const_ranges(vb), const_ranges(db)
-    # the magic check range (0,8) is shared
-    extra = sorted(r for r in vr if r not in dr)
-    ctx.instance("C28.1", "vacuum reads CSR meta ranges %s; owner decoder reads %s" % (sorted(vr), sorted(dr)))
-    ctx.oblige(not extra, "C28.1", "mark_csr_segment_pages:meta-ranges-not-in-owner-layout",
-               "vacuum reads CSR meta-page fields at byte ranges %s that the segment decoder does not use (layout drift: wrong page counts, pages "
-               "of live segments dropped)" % extra, vb.file, sample={"vacuum_only_ranges": extra})
-    vbase, dbase = named_usize_inits(vb, ("off", "offset")), named_usize_inits(db, ("off", "offset"))
-    ctx.instance("C28.1", "page-list base offset: vacuum %s owner %s" % (sorted(vbase), sorted(dbase)))
-    ctx.oblige(vbase == dbase and vbase, "C28.1", "mark_csr_segment_pages:list-base-offset",
-               "vacuum starts reading the page lists at offset %s, the segment decoder at %s" % (sorted(vbase), sorted(dbase)), vb.file)
+    # owner of the CSR page-list layout: the csr.rs function(s) that read `*_page_count` fields
+    owners = [x for i, x in sorted(F.bodies.items()) if i.startswith("nervusdb_storage::csr::") and page_count_locals(x)]
+    ctx.floor("C28.1", "csr.rs functions decoding page lists", len(owners), 1)
+    db = owners[0]
+    ctx.analysed_fns.add(db.id)
+    delegates = sorted({c.name for c in vb.calls() if c.name.startswith("nervusdb_storage::csr::")})
+    vr, dr = const_ranges(vb), const_ranges(db) | const_ranges(ctx.body("nervusdb_storage::csr::decode_segment"))
+    own_parse = bool(page_count_locals(vb)) or bool(vr - {(0, 8)})
+    ctx.instance("C28.1", "vacuum CSR marking: delegates to %s; own layout parsing=%s" % (delegates or "nothing", own_parse))
+    if own_parse:
+        extra = sorted(r for r in vr if r not in dr)
+        ctx.instance("C28.1", "vacuum reads CSR meta ranges %s; owner decoder reads %s" % (sorted(vr), sorted(dr)))
+        ctx.oblige(not extra, "C28.1", "mark_csr_segment_pages:meta-ranges-not-in-owner-layout",
+                   "vacuum reads CSR meta-page fields at byte ranges %s that the segment decoder does not use (layout drift: wrong page counts, pages "
+                   "of live segments dropped)" % extra, vb.file, sample={"vacuum_only_ranges": extra})
+        vbase, dbase = named_usize_inits(vb, ("off", "offset")), named_usize_inits(db, ("off", "offset"))
+        ctx.instance("C28.1", "page-list base offset: vacuum %s owner %s" % (sorted(vbase), sorted(dbase)))
+        ctx.oblige(vbase == dbase and vbase, "C28.1", "mark_csr_segment_pages:list-base-offset",
+                   "vacuum starts reading the page lists at offset %s, the segment decoder at %s" % (sorted(vbase), sorted(dbase)), vb.file)
+    else:
+        ctx.oblige(bool(delegates), "C28.1", "mark_csr_segment_pages:no-page-source",
+                   "vacuum neither parses the segment meta page nor asks csr.rs for the segment's pages: segment data pages are not marked", vb.file)
 
     # ---- clause 2
-    vl, dl = page_count_locals(vb), page_count_locals(db)
-    ctx.instance("C28.2", "page lists: vacuum marks %s; segment decoder reads %s" % (vl, dl))
-    ctx.oblige(len(vl) == len(dl), "C28.2", "mark_csr_segment_pages:page-lists-unmarked",
-               "a segment owns %d page lists (%s) but vacuum marks only %d (%s): the unmarked lists' pages are dropped by the copy" % (len(dl), dl, len(vl), vl),
-               vb.file, sample={"marked": vl, "owned": dl})
+    dl = page_count_locals(db)
     ctx.floor("C28.2", "page lists read by the segment decoder", len(dl), 4)
+    if own_parse:
+        vl = page_count_locals(vb)
+        ctx.instance("C28.2", "page lists: vacuum marks %s; segment decoder reads %s" % (vl, dl))
+        ctx.oblige(len(vl) == len(dl), "C28.2", "mark_csr_segment_pages:page-lists-unmarked",
+                   "a segment owns %d page lists (%s) but vacuum marks only %d (%s): the unmarked lists' pages are dropped by the copy" % (len(dl), dl, len(vl), vl),
+                   vb.file, sample={"marked": vl, "owned": dl})
+    else:
+        # the delegate must hand back all the lists the owner decodes: its result's backward slice covers each list
+        ok = False
+        for d in delegates:
+            dbody = F.bodies.get(d)
+            if dbody is None:
+                continue
+            n_ext = len([c for c in dbody.calls() if c.name.endswith("::extend") or c.name.endswith("::push") or c.name.endswith("::extend_from_slice")])
+            calls_owner = any(c.name == db.id for c in dbody.calls())
+            tuple_fields = len(dl)
+            ctx.instance("C28.2", "%s: calls owner=%s, combines %d lists (owner decodes %d)" % (d, calls_owner, n_ext + 1, tuple_fields))
+            if calls_owner and n_ext + 1 >= tuple_fields:
+                ok = True
+        ctx.oblige(ok, "C28.2", "mark_csr_segment_pages:page-lists-unmarked",
+                   "the csr.rs function vacuum relies on does not return every page list the segment decoder reads (%s)" % dl, vb.file)
     sa = ctx.body(V + "scan_wal_roots")
     sb = ctx.body("nervusdb_storage::engine::scan_recovery_state")
     fa = {f for f in siblings.features(F, sa, []) if f[0] == "cmp" and f[2] == "u64" and f[1] in ("Ge", "Gt", "Eq", "Le", "Lt")}
